@@ -93,6 +93,18 @@ def check_case(run, case):
         cands += [trainlists.password(rng, ('ascii', 'cyr', 'lat1'), allow_ew=True) for _ in range(60)]
         cands += ['ǅungla', 'İstanbul1', 'straẞe', 'Σίσυφος', 'a@b.com', 'WWW.X.COM', 'http://a.org/x', 'x@y', 'a.b', '.com', '@', 'q@w.ru1', 'John@Gmail.COM', 'mary@x.Org', 'Www.Site.NET/a']
         cands += [rng.choice([c.upper(), c.title(), c.swapcase()]) for c in rng.sample(trainlists.EMAILS + trainlists.SITES, 4)]
+        # other code-point sequences for "the same" text: decomposed spellings (base letter + combining mark) and compatibility / singleton look-alikes of
+        # training passwords and guesses.  They are different strings: the guesser emits the stored one only
+        import unicodedata
+        for c in (train_set + guess_sample)[:400]:
+            d = unicodedata.normalize('NFD', c)
+            if d != c:
+                cands.append(d)
+            k_ = c.replace('K', '\u212a').replace('Å', '\u212b').replace('Ω', '\u2126')
+            if k_ != c:
+                cands.append(k_)
+            if len(cands) > 1200:
+                break
         cands = [c for c in dict.fromkeys(cands) if oracles.valid_password(c) and trainlists.encodable(c, case['encoding'])]
         sp.email_detection, sp.website_detection = email_rec, web_rec
         first = {}
